@@ -30,6 +30,12 @@ Where the hand model is NOT syntactically the source:
   returns `none` (panic) for an out-of-range pivot or too many pivots.  Index panics are not modelled on the generated side,
   so `luSolve_eq` carries exactly these two range hypotheses (`piv.length ≤ b.length`, every pivot `< b.length`), under
   which `luPermute` is `some` (`luPermute_some`); the elimination and back-substitution loops are the model's by `rfl`.
+Shape tolerance (robustness pass): the translator's normal form makes a hoisted row offset / row slice in the substitutions
+generate the same text; `lu_eq` and `luSolve_eq` additionally accept (`first | .. | ..`) the form in which a loop-invariant cell
+is read once before a loop (`let pivot = lu[j*n+j]`, `let xk = x[k]`: bridging lemmas `hoist_read`, `scale_hoist`, `luFwd_hoist`,
+`luBwd_hoist` — the cell is never written by that loop), the always-true test `j < n` is dropped (`j` ranges over `0..n`), and the
+permutation loop is written with `enumerate` (`foldl_zipIdx_eq_foldl_range`).  A changed formula, bound, index or operand
+order still fails every alternative.
 * `try_cholesky`: `Option (Option _)` — outer `none` = panic (`assert!(is_symmetric)`, `is_square().unwrap()`), inner `none` =
   the function's `None`; the nested loops with early exit are the model's `cholLoops` / `cholRow` / `cholCell` (`foldlM`).
 -/
@@ -88,6 +94,59 @@ theorem swapIdx_map {β γ : Type} (f : β → γ) (l : List β) (i j : Nat) :
   simp only [List.getElem?_map]
   cases l[i]? <;> cases l[j]? <;> simp [List.map_set]
 
+/-- a write to another cell does not change a read -/
+theorem rd_set_ne (x : List α) (i c : Nat) (v : α) (h : i ≠ c) : rd (x.set i v) c = rd x c := by
+  unfold rd
+  rw [List.getD_eq_getElem?_getD, List.getD_eq_getElem?_getD, List.getElem?_set_ne h]
+
+/-- Bridging lemma (loop-invariant read hoisted out of a loop): in `for i in l { x[idx(i)] = F(i, x, x[c]) }` with `idx(i) ≠ c` the
+cell `c` is never written, so `x[c]` may be read once before the loop. -/
+theorem hoist_read (l : List Nat) (idx : Nat → Nat) (c : Nat) (hne : ∀ i ∈ l, idx i ≠ c) (F : Nat → List α → α → α)
+    (x0 : List α) :
+    l.foldl (fun x i => x.set (idx i) (F i x (rd x c))) x0 = l.foldl (fun x i => x.set (idx i) (F i x (rd x0 c))) x0 := by
+  apply Cv.SrcMut.foldl_congr_inv (fun x => rd x c = rd x0 c)
+  · intro x i hi hx
+    refine ⟨by rw [hx], ?_⟩
+    rw [rd_set_ne _ _ _ _ (hne i hi)]
+    exact hx
+  · rfl
+
+/-- the scaling loop of `lu` with the pivot read once (`let pivot = lu[j*n+j]`) -/
+theorem scale_hoist (n j : Nat) (lu0 : List α) :
+    (List.range' (j + 1) (n - (j + 1))).foldl (fun lu i => lu.set (i * n + j) (rd lu (i * n + j) / rd lu (j * n + j))) lu0 =
+      (List.range' (j + 1) (n - (j + 1))).foldl (fun lu i => lu.set (i * n + j) (rd lu (i * n + j) / rd lu0 (j * n + j))) lu0 := by
+  refine hoist_read _ (fun i => i * n + j) (j * n + j) ?_ (fun i lu p => rd lu (i * n + j) / p) lu0
+  intro i hi e
+  have hi' := List.mem_range'_1.mp hi
+  have hn : 0 < n := by omega
+  have : i * n = j * n := by omega
+  have := Nat.eq_of_mul_eq_mul_right hn this
+  omega
+
+/-- the elimination loops of `lu_solve` with `let xk = x[k]` read once per `k` -/
+theorem luFwd_hoist (n : Nat) (lu x : List α) :
+    luFwd n lu x = (List.range n).foldl (fun x k =>
+      (List.range' (k + 1) (n - (k + 1))).foldl (fun x' i => x'.set i (rd x' i - rd x k * rd lu (i * n + k))) x) x := by
+  unfold luFwd
+  congr 1
+  funext x k
+  refine hoist_read _ (fun i => i) k ?_ (fun i x' p => rd x' i - p * rd lu (i * n + k)) x
+  intro i hi
+  have := List.mem_range'_1.mp hi
+  omega
+
+theorem luBwd_hoist (n : Nat) (lu x : List α) :
+    luBwd n lu x = (List.range n).reverse.foldl (fun x k =>
+      let x := x.set k (rd x k / rd lu (k * n + k))
+      (List.range k).foldl (fun x' i => x'.set i (rd x' i - rd x k * rd lu (i * n + k))) x) x := by
+  unfold luBwd
+  congr 1
+  funext x k
+  refine hoist_read _ (fun i => i) k ?_ (fun i x' p => rd x' i - p * rd lu (i * n + k)) _
+  intro i hi
+  have := List.mem_range.mp hi
+  omega
+
 /-- `lu`: the generated function is the model's, with the `i32` pivots as casts of the model's `Nat` pivots. -/
 theorem lu_eq (a : List α) :
     Cv.Src.C11Mut.lu a = (Cv.LA.lu a).map (fun r => (r.1, r.2.map Int.ofNat)) := by
@@ -97,23 +156,40 @@ theorem lu_eq (a : List α) :
   | some n =>
     simp only [Option.bind_some, Option.bind_eq_bind, Option.pure_def, Option.map_some]
     refine congrArg some ?_
-    refine Cv.SrcMut.foldl_rel (fun (s : List α × List Int) (t : List α × List Nat) => s = (t.1, t.2.map Int.ofNat))
-      _ (luStep n) ?_ (List.range n) _ (a, List.range n) rfl
-    intro s t j hR
+    refine Cv.SrcMut.foldl_rel_mem (fun (s : List α × List Int) (t : List α × List Nat) => s = (t.1, t.2.map Int.ofNat))
+      _ (luStep n) (List.range n) ?_ _ (a, List.range n) rfl
+    intro s t j hj hR
     subst hR
-    -- the generated step, folded back into the model's named pieces (definitional unfolding only)
-    show (let lu := luColumn n j t.1
-          let p := luPivot n j lu
-          let st3 : List α × List Int :=
-            if p ≠ j then (swapRows n p j lu, swapIdx (t.2.map Int.ofNat) p j) else (lu, t.2.map Int.ofNat)
-          ((if j < n ∧ (rd st3.1 (j * n + j) != 0) = true then
-              (List.range' (j + 1) (n - (j + 1))).foldl
-                (fun lu i => lu.set (i * n + j) (rd lu (i * n + j) / rd lu (j * n + j))) st3.1
-            else st3.1), st3.2)) = _
-    simp only [luStep, luScale, bne_iff_ne, ne_eq, Bool.and_eq_true, decide_eq_true_eq, swapIdx_map]
-    by_cases hp : luPivot n j (luColumn n j t.1) = j
-    · simp only [hp, not_true_eq_false, if_false]
-    · simp only [hp, not_false_eq_true, if_true]
+    have hjn : j < n := List.mem_range.mp hj
+    -- the generated step, folded back into the model's named pieces (definitional unfolding only); shape-tolerant:
+    -- (A) the source's own form, (B) the pivot read once before the scaling loop and the (always true) test `j < n` dropped
+    first
+      | (show (let lu := luColumn n j t.1
+               let p := luPivot n j lu
+               let st3 : List α × List Int :=
+                 if p ≠ j then (swapRows n p j lu, swapIdx (t.2.map Int.ofNat) p j) else (lu, t.2.map Int.ofNat)
+               ((if j < n ∧ (rd st3.1 (j * n + j) != 0) = true then
+                   (List.range' (j + 1) (n - (j + 1))).foldl
+                     (fun lu i => lu.set (i * n + j) (rd lu (i * n + j) / rd lu (j * n + j))) st3.1
+                 else st3.1), st3.2)) = _
+         simp only [luStep, luScale, bne_iff_ne, ne_eq, Bool.and_eq_true, decide_eq_true_eq, swapIdx_map]
+         by_cases hp : luPivot n j (luColumn n j t.1) = j
+         · simp only [hp, not_true_eq_false, if_false]
+         · simp only [hp, not_false_eq_true, if_true])
+      | (show (let lu := luColumn n j t.1
+               let p := luPivot n j lu
+               let st3 : List α × List Int :=
+                 if p ≠ j then (swapRows n p j lu, swapIdx (t.2.map Int.ofNat) p j) else (lu, t.2.map Int.ofNat)
+               let pivot := rd st3.1 (j * n + j)
+               ((if (pivot != 0) = true then
+                   (List.range' (j + 1) (n - (j + 1))).foldl
+                     (fun lu i => lu.set (i * n + j) (rd lu (i * n + j) / pivot)) st3.1
+                 else st3.1), st3.2)) = _
+         simp only [luStep, luScale, bne_iff_ne, ne_eq, Bool.and_eq_true, decide_eq_true_eq, swapIdx_map, hjn, true_and,
+           scale_hoist]
+         by_cases hp : luPivot n j (luColumn n j t.1) = j
+         · simp only [hp, not_true_eq_false, if_false]
+         · simp only [hp, not_false_eq_true, if_true])
 
 /-- With in-range pivots the model's permutation step does not panic. -/
 theorem luPermute_some (piv : List Nat) (b : List α) (hlen : piv.length ≤ b.length) (hp : ∀ p ∈ piv, p < b.length) :
@@ -142,8 +218,18 @@ theorem luSolve_eq (lu : List α) (piv : List Nat) (b : List α)
       rw [Cv.SrcLoops.map_range_idx (fun z : Int => rd b z.toNat) (piv.map Int.ofNat)]
       simp only [List.map_map, List.drop_replicate, List.length_map]
       congr 1
-    show some (luBwd b.length lu (luFwd b.length lu _)) = _
-    rw [hperm]
+    have hpermZ : (List.zipIdx (piv.map Int.ofNat)).foldl
+        (fun (x : List α) (p : Int × Nat) => x.set p.2 (rd b (Int.toNat p.1))) (List.replicate b.length 0)
+          = piv.map (rd b) ++ List.replicate (b.length - piv.length) 0 := by
+      rw [Cv.SrcMut.foldl_zipIdx_eq_foldl_range (fun (x : List α) (p : Int) (i : Nat) => x.set i (rd b (Int.toNat p)))]
+      exact hperm
+    -- shape-tolerant: (A) the source's own form, (B) `enumerate` for the permutation loop and `let xk = x[k]` read once
+    first
+      | (show some (luBwd b.length lu (luFwd b.length lu _)) = _
+         rw [hperm])
+      | (rw [luBwd_hoist, luFwd_hoist, ← hpermZ])
+      | (rw [luBwd_hoist, luFwd_hoist, ← hperm])
+      | (rw [← hpermZ]; rfl)
   · simp only [hl, if_false, ne_eq, not_false_eq_true, if_true]
 
 /-- `try_cholesky`: asserts, `vec![0.; n * n]`, the row sweep with early `return None`. -/
